@@ -1,12 +1,176 @@
-/-! Executable model for property C14 (core-only).  Not built yet: the driver answers
-    `unimplemented` so that a check of this property cannot pass by accident. -/
+/-! Executable model for property C14 (core-only): one target coroutine, any number of callers (cor.go).
+
+    caller i:  YieldFrom(target, x) = ⟨send: target.opCh <- (i, x)  (under target.closedM; blocks while `cap` are
+               pending)⟩ ⟨recv: y := <-resultCh_i⟩, sequentially for its script of requests.
+    target:    YieldRef(y) = ⟨take: op := <-opCh⟩ ⟨answer: op.cor ≠ nil → op.cor.resultCh <- y⟩ return op.val;
+               y is what the generator yields at that point: a function `gen` of the requests taken so far.
+    StartWithVal(v) = receive(nil, v): an op without a caller in front of everything; nobody is answered.
+    Ghost: `served` = the ops taken by the target, in order, with the y yielded for each.
+    Hypothesis of the property (the target still has YieldRefs to serve): the target never finishes here —
+    finishing is C15's system. -/
+
 namespace FpgoVerif.C14
 
-/-- one protocol case line in, one canonical observation line out -/
-def handle (_line : String) : String := "unimplemented"
+structure St where
+  pending : Nat → List Nat
+  waiting : Nat → Bool
+  opCh : List (Option Nat × Nat)
+  inflight : Option (Option Nat × Nat × Nat)
+  resCh : Nat → List Nat
+  got : Nat → List Nat
+  served : List (Option Nat × Nat × Nat)
 
-/-- spec-level oracle: given the case line and the observation printed by the real code, decide
-    whether the *property* is violated (`violation <why>`) or not (`allowed <why>`). -/
-def judge (_line _impl : String) : String := "violation model-and-implementation-disagree"
+def updL (f : Nat → List Nat) (i : Nat) (v : List Nat) : Nat → List Nat := fun k => if k = i then v else f k
+def updB (f : Nat → Bool) (i : Nat) (v : Bool) : Nat → Bool := fun k => if k = i then v else f k
+
+def seenOf (l : List (Option Nat × Nat × Nat)) : List (Option Nat × Nat) := l.map (fun o => (o.1, o.2.1))
+
+inductive Act | send (i : Nat) | take | answer | recv (i : Nat)
+deriving Repr
+
+/-- one atom; `gen` = the generator (what the next YieldRef yields, given what was taken so far) -/
+def step (gen : List (Option Nat × Nat) → Nat) (cap : Nat) (s : St) : Act → Option St
+  | .send i =>
+    match s.pending i with
+    | x :: rest =>
+      if s.waiting i = false ∧ s.opCh.length < cap then
+        some { s with pending := updL s.pending i rest, waiting := updB s.waiting i true, opCh := s.opCh ++ [(some i, x)] }
+      else none
+    | [] => none
+  | .take =>
+    match s.inflight, s.opCh with
+    | none, (c, x) :: rest =>
+      let y := gen (seenOf s.served)
+      some { s with inflight := some (c, x, y), opCh := rest, served := s.served ++ [(c, x, y)] }
+    | _, _ => none
+  | .answer =>
+    match s.inflight with
+    | some (some i, _, y) => some { s with inflight := none, resCh := updL s.resCh i (s.resCh i ++ [y]) }
+    | some (none, _, _) => some { s with inflight := none }
+    | none => none
+  | .recv i =>
+    match s.resCh i with
+    | y :: rest =>
+      if s.waiting i = true then
+        some { s with resCh := updL s.resCh i rest, got := updL s.got i (s.got i ++ [y]), waiting := updB s.waiting i false }
+      else none
+    | [] => none
+
+/-- initial state: scripts per caller; `sv` = StartWithVal's value (an op without a caller) -/
+def init (script : Nat → List Nat) (sv : Option Nat) : St :=
+  { pending := script, waiting := fun _ => false,
+    opCh := match sv with | some v => [(none, v)] | none => [],
+    inflight := none, resCh := fun _ => [], got := fun _ => [], served := [] }
+
+inductive Reach (gen : List (Option Nat × Nat) → Nat) (cap : Nat) (script : Nat → List Nat) (sv : Option Nat) : St → Prop
+  | init : Reach gen cap script sv (init script sv)
+  | step {s s'} (a : Act) : Reach gen cap script sv s → step gen cap s a = some s' → Reach gen cap script sv s'
+
+/-- projections of a list of ops to caller i -/
+def xsOf (i : Nat) (l : List (Option Nat × Nat × Nat)) : List Nat := (l.filter (fun o => o.1 == some i)).map (·.2.1)
+def ysOf (i : Nat) (l : List (Option Nat × Nat × Nat)) : List Nat := (l.filter (fun o => o.1 == some i)).map (·.2.2)
+def chOf (i : Nat) (l : List (Option Nat × Nat)) : List Nat := (l.filter (fun o => o.1 == some i)).map (·.2)
+def inflY (i : Nat) : Option (Option Nat × Nat × Nat) → List Nat
+  | some (some j, _, y) => if j = i then [y] else []
+  | _ => []
+
+/-! ### executable side: the harness's three generator shapes and a round-robin scheduler -/
+
+def callerXs (l : List (Option Nat × Nat)) : List Nat := l.filterMap (fun o => match o.1 with | some _ => some o.2 | none => none)
+
+def shapeGen (shape : String) (hasStart : Bool) (seen : List (Option Nat × Nat)) : Nat :=
+  if hasStart && seen.isEmpty then 0 else
+  let xs := callerXs seen
+  if shape == "fixed" then 7 * xs.length + 3
+  else if shape == "echo" then (match xs.getLast? with | some x => x + 1 | none => 1)
+  else xs.foldl (· + ·) 0 % 100003 + 2
+
+def mkScript (reqs : List Nat) : Nat → List Nat := fun i =>
+  match reqs[i]? with
+  | some n => (List.range n).map (fun s => i * 1000 + s + 1)
+  | none => []
+
+/-- round-robin over all actions until nothing is enabled (fuel-bounded) -/
+def runRR (gen : List (Option Nat × Nat) → Nat) (cap n : Nat) : Nat → St → St
+  | 0, s => s
+  | fuel + 1, s =>
+    let acts := [Act.take, Act.answer] ++ (List.range n).flatMap (fun i => [Act.recv i, Act.send i])
+    let (s', moved) := acts.foldl (fun (acc : St × Bool) a =>
+      match step gen cap acc.1 a with
+      | some t => (t, true)
+      | none => acc) (s, false)
+    if moved then runRR gen cap n fuel s' else s'
+
+def kv (ps : List String) (k : String) : String :=
+  match ps.filterMap (fun p => match p.splitOn "=" with | [a, b] => if a == k then some b else none | _ => none) with
+  | v :: _ => v
+  | [] => ""
+
+/-- the monitors of harness/c14.go evaluated on the model's own run -/
+def pairCase (ps : List String) : String :=
+  let shape := kv ps "shape"
+  let reqs := ((kv ps "reqs").splitOn ",").map (fun t => t.toNat?.getD 0)
+  let svs := kv ps "startval"
+  let startNil := svs == "nil"
+  let sv := svs.toNat?.getD 0
+  let hasStart := startNil || decide (0 < sv)
+  let gen := shapeGen shape hasStart
+  let n := reqs.length
+  let total := reqs.foldl (· + ·) 0
+  let script := mkScript reqs
+  let s := runRR gen 5 n (8 * total + 16) (init script (if hasStart then some sv else none))
+  let okCallers := (List.range n).all (fun i =>
+    xsOf i s.served == script i && s.got i == ysOf i s.served && (s.got i).length == (script i).length)
+  let first := match s.served with
+    | (none, v, _) :: _ => some v
+    | _ => none
+  -- StartWithVal(zero value of T): nil for interface{} / pointer element types, 0 for int
+  let showFirst : String := match first with
+    | some v => if startNil && kv ps "ty" != "int" && kv ps "ty" != "" then "nil" else toString v
+    | none => "none"
+  if !okCallers then "viol model-run"
+  else if hasStart && first != some sv then "viol startval"
+  else if !hasStart && first.isSome then "viol startval"
+  else s!"ok total={total} first={showFirst}"
+
+/-- DoNotation / YieldFromIO: `result` is written by the effect goroutine before `wg.Done()`, and read after
+    `wg.Wait()` returned -/
+inductive WgSt | running | stored (v : Nat) | signalled (v : Nat)
+def wgStep : WgSt → Nat → WgSt
+  | .running, v => .stored v
+  | .stored v, _ => .signalled v
+  | s, _ => s
+/-- what the waiter reads once Wait has returned (only possible in `signalled`) -/
+def wgResult : WgSt → Option Nat
+  | .signalled v => some v
+  | _ => none
+def doNotation (v : Nat) : Option Nat := wgResult (wgStep (wgStep .running v) v)
+
+/-- lifecycle flags: Start sets isStarted before `go`, close() sets isClosed after the effect returned -/
+structure Flags where
+  started : Bool
+  done : Bool
+def flagsTrace : List Flags :=
+  let f0 : Flags := ⟨false, false⟩
+  let f1 : Flags := { f0 with started := true }      -- Start(): isStarted.Set(true); go …
+  let f2 : Flags := { f1 with done := true }         -- effect returned; close(): isClosed.Set(true)
+  [f0, f1, f2]
+
+def b01 (b : Bool) : String := if b then "b1" else "b0"
+
+def handle (line : String) : String :=
+  match (line.splitOn " ").filter (· ≠ "") with
+  | "pair" :: ps => pairCase ps
+  | ["donot", p] => match doNotation ((kv [p] "v").toNat?.getD 0) with | some v => s!"ok {v}" | none => "hang"
+  | ["yfio", p] => match doNotation ((kv [p] "v").toNat?.getD 0) with | some v => s!"ok {v}" | none => "hang"
+  | ["flags"] => " ".intercalate (flagsTrace.map (fun f => b01 f.started ++ " " ++ b01 f.done))
+  | _ => "bad-line"
+
+/-- spec-level oracle: the harness's monitors are the property's own clauses; any `viol`/hang/panic is a violation -/
+def judge (_line impl : String) : String :=
+  if impl.startsWith "viol" then "violation " ++ impl
+  else if impl == "hang" || impl == "crash" || impl == "panic" then "violation the case did not complete: " ++ impl
+  else if impl.startsWith "ok" || impl.startsWith "b" then "violation value differs from the specified one: " ++ impl
+  else "violation unexpected observation"
 
 end FpgoVerif.C14
